@@ -341,3 +341,21 @@ Proof.
     change (support_resources k (with_flags c (set_modes (c_flags c) (f_dry (c_flags c)) false true)) o) with (support_resources k c o).
     exact Hr.
 Qed.
+
+(* ---- theorem 4: what --list-inputs prints for a generator is a set of PATHS ------------------- *)
+(* type generator: exactly the paths of the files with the template suffix in the directories of its loader chain --
+   two files with the same name in different directories are two entries *)
+Theorem listed_templates_servable_gen k c o p :
+  In p (listed_templates k c GTypes o) <-> exists d f, In d (chain c GTypes) /\ In f d /\ tf_j2 f = true /\ tf_path f = p.
+Proof.
+  cbn [listed_templates]. rewrite in_flat_map. split.
+  - intros (d & Hd & Hp). unfold j2_paths in Hp. apply in_map_iff in Hp. destruct Hp as (f & Hf & Hin).
+    apply filter_In in Hin. destruct Hin as [Hin Hj]. exists d, f. auto.
+  - intros (d & f & Hd & Hf & Hj & Hp). exists d. split; [assumption|]. unfold j2_paths. apply in_map_iff. exists f.
+    split; [assumption|]. apply filter_In. auto.
+Qed.
+
+(* support generator: exactly the paths of the packaged resources SupportGenerator.get_templates enumerates *)
+Theorem listed_support_resources_gen k c o p :
+  In p (listed_templates k c GSupport o) <-> exists r, In r (support_resources k c o) /\ sr_path r = p.
+Proof. cbn [listed_templates]. rewrite in_map_iff. split; intros (r & H1 & H2); exists r; auto. Qed.
